@@ -1131,6 +1131,21 @@ static void cmd_lpt(int nt, char **t)
 	loc_report(&x, &y);
 	json_object_put(o); json_tokener_free(tok); free(buf); free(b);
 }
+/* LPBIG: a NUL-terminated text of more than INT32_MAX bytes handed over with len = -1 (the one way to reach the "text too long" outcome with a real text), with the locale monitors */
+static void cmd_lpbig(int nt, char **t)
+{
+	size_t n = (size_t)INT32_MAX + 64; char *buf = (char *)malloc(n + 1); struct json_tokener *tok; struct json_object *o; struct locobs x, y; (void)nt; (void)t;
+	if (!buf) { ob_puts(&out, "= nomem"); return; }
+	memset(buf, ' ', n); memcpy(buf, "[1.5,2.25]", 10); buf[n] = 0;
+	vf_progress++;
+	tok = json_tokener_new();
+	loc_observe(&x);
+	o = json_tokener_parse_ex(tok, buf, -1);
+	loc_observe(&y);
+	emit_parse_result(tok, o);
+	loc_report(&x, &y);
+	json_object_put(o); json_tokener_free(tok); free(buf);
+}
 /* DFMT <0 global | 1 thread> <hex format | ->   json_c_set_serialization_double_format;  SERFMT <h> <hex format>: per-node format */
 static void cmd_dfmt(int nt, char **t)
 {
@@ -1353,6 +1368,7 @@ static void dispatch(int nt, char **t)
 	else if (!strcmp(c, "LS")) cmd_ls(nt, t);
 	else if (!strcmp(c, "LPC")) cmd_lpc(nt, t);
 	else if (!strcmp(c, "LPT")) cmd_lpt(nt, t);
+	else if (!strcmp(c, "LPBIG")) cmd_lpbig(nt, t);
 	else if (!strcmp(c, "DFMT")) cmd_dfmt(nt, t);
 	else if (!strcmp(c, "SERFMT")) cmd_serfmt(nt, t);
 	else if (!strcmp(c, "FDW")) cmd_fdw(nt, t);
